@@ -102,6 +102,7 @@ func (a *armed) hit(h, id int) {
 }
 
 func (c *calls) hit(h, id int) {
+	concProgress.Add(1)
 	c.mu.Lock()
 	c.n[h]++
 	c.ev[h] = append(c.ev[h], id)
@@ -335,11 +336,24 @@ type ConcCase struct {
 	SharedOpts bool    `json:"shared_opts,omitempty"`
 }
 
+// concProgress counts handler invocations of the running concurrent case (for
+// the stall oracle: handlers are trivial, so a case that neither finishes nor
+// records an invocation for 40 s is stuck in the bus).
+var concProgress atomic.Int64
+
 func RunConc(c *ConcCase) *vkit.Outcome {
-	o := &vkit.Outcome{}
 	if c.Procs > 0 {
 		defer runtime.GOMAXPROCS(runtime.GOMAXPROCS(c.Procs))
 	}
+	return vkit.StallOracle(func() *vkit.Outcome { return runConc(c) },
+		func() (int64, bool) { return concProgress.Load(), true }, 40,
+		func() string {
+			return fmt.Sprintf("%+v: concurrent publishers against Once handlers: the round does not finish (Publish or Wait blocked; handlers are trivial)", *c)
+		})
+}
+
+func runConc(c *ConcCase) *vkit.Outcome {
+	o := &vkit.Outcome{}
 	eligible := make([]int, len(c.Handlers)) // number of eligible publishes per handler
 	for hi, h := range c.Handlers {
 		for _, ps := range c.Publishers {
